@@ -37,6 +37,8 @@ type c40Program struct {
 	Focus  int  // index into c40Focus: the path most steps of this program gang up on
 	Seed   bool // a fake publisher is attached to the focus path before the actors start (readers find a stream)
 	Actors []c40Actor
+
+	excluded []string // known-finding keys that changed the construction of this program
 }
 
 // c40Focus: (media path, name of the configuration it falls under)
@@ -259,6 +261,10 @@ func c40GenProgram(t *rapid.T) c40Program {
 		}
 		if kind == "stopper" {
 			stopper = true
+		}
+		if kind == "rtsprdr" && c40Known(c40KnownStreamClose) {
+			kind = "fakerdr" // excluded by construction while the finding is listed as known
+			p.excluded = append(p.excluded, c40KnownStreamClose)
 		}
 		p.Actors = append(p.Actors, c40GenActor(t, kind, p.Focus))
 	}
